@@ -38,6 +38,8 @@ type Session struct {
 	Trace    []Event
 	Calls    int
 	CancelAt int // cancel the context inside the k-th call (0-based); -1 = never
+	FailAt   int // the k-th call fails instead of running; -1 = never
+	FailKind int // 0 error, 1 panic(string), 2 panic(error), 3 panic(other)
 	cancel   context.CancelFunc
 }
 
@@ -94,7 +96,7 @@ func WithSession(ctx context.Context, s *Session) context.Context {
 func sessionOf(ctx context.Context) *Session {
 	s, _ := ctx.Value(sessKey{}).(*Session)
 	if s == nil {
-		s = &Session{CancelAt: -1}
+		s = &Session{CancelAt: -1, FailAt: -1}
 	}
 	return s
 }
@@ -107,16 +109,45 @@ func enter(ctx context.Context, name string, args []core.Value) *Session {
 	s.Calls++
 	cancel := s.cancel
 	hit := s.CancelAt >= 0 && k == s.CancelAt
+	fail := s.FailAt >= 0 && k == s.FailAt
+	kind := s.FailKind
 	s.mu.Unlock()
 	if hit && cancel != nil {
 		cancel()
 	}
+	if fail {
+		switch kind {
+		case 0:
+			panic(injectedError{})
+		case 1:
+			panic("harness: injected string panic")
+		case 2:
+			panic(errors.New("harness: injected error panic"))
+		default:
+			panic(otherPanic{2})
+		}
+	}
 	return s
 }
 
+// injectedError is turned into an ordinary error return by the wrapper in Register.
+type injectedError struct{}
+
 func Register(c *compiler.Compiler) {
 	reg := func(name string, fn core.Function) {
-		if err := c.RegisterFunction(name, fn); err != nil {
+		wrapped := func(ctx context.Context, args ...core.Value) (out core.Value, err error) {
+			defer func() {
+				if r := recover(); r != nil {
+					if _, ok := r.(injectedError); ok {
+						out, err = values.None, errors.New("harness: injected error")
+						return
+					}
+					panic(r)
+				}
+			}()
+			return fn(ctx, args...)
+		}
+		if err := c.RegisterFunction(name, wrapped); err != nil {
 			panic(err)
 		}
 	}
@@ -214,7 +245,12 @@ func Run(c *compiler.Compiler, query string, params map[string]interface{}, canc
 }
 
 func RunProgram(prog *runtime.Program, params map[string]interface{}, cancelAt int, precancel bool) (out Outcome) {
-	s := &Session{CancelAt: cancelAt}
+	return RunProgramInj(prog, params, cancelAt, precancel, -1, 0)
+}
+
+// RunProgramInj additionally makes the failAt-th instrumented call fail.
+func RunProgramInj(prog *runtime.Program, params map[string]interface{}, cancelAt int, precancel bool, failAt, failKind int) (out Outcome) {
+	s := &Session{CancelAt: cancelAt, FailAt: failAt, FailKind: failKind}
 	ctx, cancel := context.WithCancel(context.Background())
 	defer cancel()
 	s.cancel = cancel
